@@ -43,6 +43,7 @@ RULE += (' Also: streams whose items are awaitable jobs (never awaited by a hand
 RULE += (' Also: a value sent through a handle over a generator that was never advanced is refused and takes nothing.')
 RULE += (' Also: a chain closed before its first item has closed the handles it was given.')
 RULE += (' Also: sum over a handle whose first item cannot be added stops at that item.')
+RULE += (' Also: an ended scope context cannot be entered a second time.')
 ASSUMPTIONS = ["laziness of the tools themselves is C05's concern; here the stdlib twin predicts how many items a tool takes",
                "athrow on a LIVE handle is not part of the property's operation list and is not generated; athrow on a closed handle is"]
 EXHAUSTIVE_SUBSPACES = 'all histories of length <= 3 (thorough: 4) over a 13-operation alphabet'
@@ -608,6 +609,21 @@ def run_history(case, stats, scoped=None):
                 parent.append(h)
                 self_closed.add(len(handles) - 1)
                 counters["scopes_over_borrowed_handles"] += 1
+                # a scope that has ended stays ended: its context object cannot be entered a second time (a retry loop
+                # re-using it) - nothing is handed out, nothing is closed again
+                try:
+                    again = await ctx.__aenter__()
+                except RuntimeError:
+                    counters["scope_reuse_after_its_end_refused"] += 1
+                else:
+                    try:
+                        got = await anext_of(again)
+                    finally:
+                        await ctx.__aexit__(None, None, None)
+                    if got != STOP:
+                        fail("borrow/scoped-handle-alive-after-its-scope",
+                             f"op {n} {op}: the ended scope was entered a second time and handed out a live handle ({got})")
+                        return
             elif kind == "scope_late":
                 # a scope context created over the live handle; the handle is closed BEFORE the context is entered: what
                 # the scope hands out then is a handle over a closed handle - it yields nothing, sends reach nothing
